@@ -71,7 +71,7 @@ RefFx(v) == Fx(<<>>, [has |-> IF v = 1 THEN 1 ELSE 0, v |-> IF v = 1 THEN <<1, 2
                << <<<<9, 9>>, <<8>>>>, <<<<7, 7, 7>>>>, <<>> >>, << <<1>>, <<2, 3>>, <<>> >>, Pkg(IF v = 1 THEN 0 ELSE 1), 0)
 AuthFx(v) == Fx(<<>>, [has |-> 0, v |-> <<>>], [has |-> 0, v |-> 0], <<>>, <<>>, IF v = 1 THEN Pkg(0) ELSE NoPkg, 0)
 Ctx(svcs, priv) == [self |-> LE(5, 4), nextid |-> LE(70000, 4), t |-> LE(100, 4), svcs |-> svcs, xfers |-> <<>>, priv |-> priv,
-                    yield |-> <<>>, prov |-> <<>>, vk |-> <<0>>, aq |-> <<>>, nkv |-> 0, machines |-> <<>>, nexp |-> 0, expd |-> <<>>, expoff |-> 0]
+                    yield |-> <<>>, prov |-> <<>>, vk |-> <<0>>, aq |-> <<>>, kv |-> <<>>, machines |-> <<>>, nexp |-> 0, expd |-> <<>>, expoff |-> 0]
 \* accumulate contexts: rich / exactly at threshold (and 70042 taken) / huge / below threshold
 AccCtx(v) ==
   CASE v = 1 -> Ctx(<<SelfBase(Add(SelfThr, U(1000))), Other, Eject7(U(300)), Eject8, Eject9>>, Priv(5, 5, 5, 5, 5))
@@ -133,7 +133,10 @@ CallFields(k) ==
     [] k = 9 -> <<One(7, 2, MachV), One(8, OutGood, OutV), One(9, 3, <<A(32, 0), A(33, 0), A(32, 4090), A(34, 0), U64Zero, Add(A(32, 0), Hi32), UMax>>), One(10, 4, <<U(4), U64Zero, U(1), U(6), U(4097), Hi32, UMax>>)>>
     [] k = 10 -> <<One(7, 2, MachV), Fld(<<8, 10>>, ValGood, ValP), One(9, 2, <<A(32, 100), A(32, 4090), A(33, 0), A(34, 0), U64Zero, Add(A(32, 0), Hi32), UMax>>)>>
     [] k = 11 -> <<One(7, 2, MachV), One(8, 3, <<U(32), U(40), U(16), U(15), U64Zero, U(1048575), U(1048576), Hi32, UMax>>),
-                   One(9, 3, <<U(1), U(2), U64Zero, U(1048576), Hi32, UMax>>), One(10, 5, <<U64Zero, U(1), U(2), U(3), U(4), U(5), Hi32, UMax>>)>>
+                   One(9, 3, <<U(1), U(2), U64Zero, U(1048576), Hi32, UMax>>), One(10, 5, <<U64Zero, U(1), U(2), U(3), U(4), U(5), Hi32, UMax>>),
+                   \* (page, count, mode) together: modes 3 / 4 over a range whose leading pages exist and a later one does not
+                   Fld(<<8, 9, 10>>, 1, << <<U(32), U(1), U64Zero>>, <<U(32), U(3), U(3)>>, <<U(32), U(3), U(4)>>, <<U(32), U(2), U(3)>>, <<U(32), U(2), U(4)>>,
+                                           <<U(33), U(2), U(3)>>, <<U(33), U(2), U(1)>>, <<U(31), U(2), U(4)>> >>)>>
     [] k = 12 -> <<One(7, 2, MachV), One(8, 4, <<A(33, 200), A(37, 0), A(32, 2000), A(33, 3984), A(33, 3988), A(33, 3985), A(33, 4090), A(34, 10), A(35, 0), U64Zero, Add(A(33, 200), Hi32), A(1048575, 4000), UMax>>)>>
     [] k = 13 -> <<One(7, 2, MachV)>>
     [] k = 14 -> <<One(7, 3, ValV), One(8, InGood, InV(A(32, 1400), 8)), One(9, 3, ValV), One(10, 3, ValV),
@@ -192,6 +195,17 @@ Sol(h, z) == Step(23, Regs6(HashAt(h), U(z), Z, Z, Z, Z), U(1000))
 Fgt(h, z) == Step(24, Regs6(HashAt(h), U(z), Z, Z, Z, Z), U(1000))
 FootAlphabet == <<Wr(1024, 2, 16), Wr(1024, 2, 4), Wr(1024, 2, 0), Wr(1040, 3, 16), Wr(1040, 3, 0), Wr(1040, 3, 1), Wr(1056, 2, 9), Wr(1024, 0, 2),
                   Sol(0, 3), Sol(3, 4), Sol(7, 0), Sol(1, 5), Fgt(1, 5), Fgt(2, 3), Fgt(0, 3), Fgt(5, 7), Fgt(3, 4), NewC(0, Z)>>
+
+\* the caller's storage entry K1 lives only in the pool of raw (not yet attributed) state key-values: the footprint counts it,
+\* the dictionary does not hold it (a state restored from key-values, as the importer / fuzz target builds it)
+KvCtx(v) == LET c == AccCtx(v) IN
+  [c EXCEPT !.svcs[1] = [@ EXCEPT !.st = << <<K3, <<>>>> >>], !.kv = << <<LE(5, 4), K1, V1>> >>]
+KvSteps == <<Step(4, Regs6(A(32, 1024), U(2), A(32, 1100), U(16), Z, Z), U(1000)), Step(4, Regs6(A(32, 1024), U(2), A(35, 0), U(2), Z, Z), U(1000)),
+             Step(4, Regs6(A(32, 1024), U(2), A(32, 1100), U(4), Z, Z), U(1000)), Step(4, Regs6(A(32, 1024), U(2), A(32, 1100), Z, Z, Z), U(1000)),
+             Step(4, Regs6(A(32, 1024), U(2), A(32, 1100), U(5), Z, Z), U(1000)), Step(4, Regs6(A(32, 1024), U(2), A(32, 1100), Hi32, Z, Z), U(1000)),
+             Step(4, Regs6(A(32, 1024), U(2), A(32, 1100), U(16), Z, Z), U(9)),
+             Step(3, Regs6(UMax, A(32, 1024), U(2), A(33, 200), Z, U(200)), U(1000)), Step(3, Regs6(U(5), A(32, 1024), U(2), A(34, 10), Z, U(200)), U(1000)),
+             Step(5, Regs6(UMax, A(33, 200), Z, U(96), Z, Z), U(1000))>>
 
 \* the state record the functional definitions work on
 \* (design models: recorded digests are a fixed dummy, encodings are placeholders)
